@@ -150,8 +150,10 @@ def index_text(name, text):
 
 def check_text(family, name, text, acc: Acc, desc):
     bad = index_text(name, text)
+    f = _server().srv.workspace.get(os.path.join(_CTX["root"], name))
+    shape = (len(f.ast.scope_list), len(f.ast.variable_list)) if f is not None and f.ast is not None else None
     acc.case(nontrivial_key=(name, text) if text.strip() else None,
-             outcome=tuple((b[0], b[1], b[2]) for b in bad))
+             outcome=(tuple((b[0], b[1], b[2]) for b in bad), shape))
     for stage, exc, site, msg in bad:
         acc.violation(Violation(
             family, {"family": family, "stage": stage, "exc": exc, "site": site},
@@ -179,6 +181,20 @@ def fragment_cases(maxlen):
             for name, fixed in KINDS:
                 lines = [fixed_form(FRAGMENTS[i]) if fixed else FRAGMENTS[i] for i in combo]
                 yield ("fragments", name, "\n".join(lines) + "\n", f"fragments={list(combo)}")
+
+
+PP_LINES = [
+    "#define A 1", "#define A", "#define A(x) (x)", "#define A(x, y) x+y", "#undef A", "#define B A", "#define A 1 \\",
+    "y = A", "y = A(1)", "y = A(1, 2) + B", "#ifdef A", "#if A", "#if A(1) > 0", "#else", "#endif", "integer :: A",
+]
+
+
+def pp_sequence_cases(maxlen):
+    """Longer sequences over a small preprocessor alphabet: definitions of one name
+    in every macro kind interleaved with uses, #undef and conditionals."""
+    for n in range(1, maxlen + 1):
+        for combo in itertools.product(range(len(PP_LINES)), repeat=n):
+            yield ("pp_sequences", "k.F90", "\n".join(PP_LINES[i] for i in combo) + "\n", f"pp_lines={list(combo)}")
 
 
 def corpus():
@@ -243,6 +259,7 @@ def main(ctx):
                        "one long-lived server per worker whose workspace / obj_tree / pp_defs are reset before each text"]
     fams = [
         ("fragments", fragment_cases(2 if q else 3), 256),
+        ("pp_sequences", pp_sequence_cases(4 if q else 5), 256),
         ("prefixes", prefix_cases(by_char=not q), 64),
         ("mutants", mutant_cases(token_level=not q), 64),
     ]
